@@ -161,6 +161,9 @@ func (b *bitstream) Next() error {
 	if !b.stack.empty() {
 		cur := b.stack.peek()
 		if b.pos == cur.end {
+			if cur.code == bitcodeStruct && b.state == bssBeforeValue {
+				return &SyntaxError{"struct ends after a field name without a value", b.pos}
+			}
 			b.code = bitcodeEOF
 			return nil
 		}
